@@ -21,6 +21,7 @@ fn main() {
 		"http_content_type_gate" => probes::http_content_type_gate(),
 		"client_survives_hostile_ids" => probes::client_survives_hostile_ids(),
 		"client_subscription_array_equals_single" => probes::client_subscription_array_equals_single(),
+		"registry_atomicity" => probes::registry_atomicity(),
 		_ => json!({"probe": name, "error": "unknown probe"}),
 	};
 	println!("{}", res);
